@@ -20,8 +20,9 @@ import sys
 import time
 
 ROOT = os.path.dirname(os.path.dirname(os.path.abspath(__file__)))
-SNAP = "/tmp/verif_snap"
-WT = "/tmp/wt_eval"
+SLOT = os.environ.get("SEEDSLOT", "")          # several evaluations can run side by side, one slot each
+SNAP = "/tmp/verif_snap" + SLOT
+WT = "/tmp/wt_eval" + SLOT
 
 
 def sh(cmd, cwd=None, timeout=7200):
